@@ -193,7 +193,7 @@ def check_roles(ctx):
     ctx.ob("C20.T3", ia.qualname, ok, "only the active side starts the select procedure" if ok else f"is_active returns {norm(r[0].value) if r else None}", where=ia.where)
     en = repo.method("GemHandler", "enable", inherited=False)
     ctx.touch(en)
-    cfg = cfg_of(en.node)
+    cfg = cfg_of(normal.normalised(ctx, en))
     a = [n for n in cfg.real_nodes() if any(c == "self._communication_state.enable" for c in n.call_names())]
     b = [n for n in cfg.real_nodes() if any(c == "self.protocol.enable" for c in n.call_names())]
     ok = len(a) == 1 and len(b) == 1 and cfg.dominates(a[0], b[0])
